@@ -22,6 +22,7 @@ func c02Ops() []c02op {
 	for _, op := range []string{"Add", "Sub", "Mul", "Div", "Equal", "Greater", "GreaterOrEqual", "Less", "LessOrEqual"} {
 		o = append(o, f(op, "", "x,w", "o", []string{"x:2,2", "w:2"}, "w"))
 		o = append(o, f(op, "", "w,x", "o", []string{"x:1,2", "w:2,1"}, "w"))
+		o = append(o, f(op, "", "x,w", "o", []string{"x:1,3", "w:2,1"}, "w")) // both stretched: the first on its outer, the second on its inner axis
 	}
 	// operands that already have the result's shape: broadcasting hands them through unchanged (aliases)
 	for _, op := range []string{"Add", "Sub", "Mul", "Div", "Greater", "Equal"} {
